@@ -107,6 +107,33 @@ pub fn expected_from_model(model: &Model, t: &TextTrace) -> Option<Vec<String>> 
                     _ => out.push(printed),
                 }
             }
+            TextLine::IndentedCause(indent, th) => {
+                // "Caused by: " is only recognised at the very start of a line: always passed through
+                if indent.is_empty() || !trace::class_ok(&th.class) || th.message.as_ref().map_or(false, |m| m.is_empty() || m.trim() != m) {
+                    return None;
+                }
+                out.push(format!("{indent}Caused by: {}", th.print()));
+            }
+            TextLine::Invisible(prefix, th, is_cause) => {
+                if !trace::class_ok(&th.class) || th.message.as_ref().map_or(false, |m| m.is_empty() || m.trim() != m) {
+                    return None;
+                }
+                // the invisible character is part of the class name: a different (normally unknown) class
+                let class = format!("{prefix}{}", th.class);
+                let shown = crate::api::ThrowableAst { class: class.clone(), message: th.message.clone() };
+                let printed = if *is_cause { format!("Caused by: {}", shown.print()) } else { shown.print() };
+                let applies = (i == 0 && !is_cause) || (i > 0 && *is_cause);
+                match (applies, model.class(&class)) {
+                    (true, Some(orig)) => {
+                        let body = match &th.message {
+                            Some(m) => format!("{orig}: {m}"),
+                            None => orig.to_string(),
+                        };
+                        out.push(if *is_cause { format!("Caused by: {body}") } else { body });
+                    }
+                    _ => out.push(printed),
+                }
+            }
             TextLine::Raw(_) => return None,
         }
     }
@@ -163,6 +190,12 @@ fn classify_text(t: &TextTrace, st: &mut Stats) {
     }
     if t.lines.iter().any(|l| matches!(l, TextLine::Raw(_))) {
         st.class("unrecognised shapes present");
+    }
+    if t.lines.iter().any(|l| matches!(l, TextLine::IndentedCause(..))) {
+        st.class("indented 'Caused by:' line (must pass through)");
+    }
+    if t.lines.iter().any(|l| matches!(l, TextLine::Invisible(..))) {
+        st.class("invisible character in front of a class name");
     }
     if t.eol != 0 {
         st.class("CRLF / mixed line endings");
@@ -223,17 +256,44 @@ pub fn check_case(case: &MapCase, st: &mut Stats) -> Check {
     Ok(())
 }
 
+/// long texts (hundreds of lines drawn with repetition from a small pool, > 16 KiB)
+pub fn check_long(case: &MapCase, st: &mut Stats) -> Check {
+    let model = Model::new(&case.file);
+    let u = Universe::from_ast(&case.file, false);
+    let bytes = case.bytes();
+    let pool = name_pool_for(&case.file, &u);
+    let texts: Vec<TextTrace> = sample_n(&trace::long_text(&pool), case.key ^ 0x1047, 2);
+    let m = mapper(&bytes, false)?;
+    let buf = write_cache(&bytes)?;
+    let cache = parse_cache(&buf)?;
+    for t in &texts {
+        st.class("text with >= 350 lines");
+        no_panic("remap_stacktrace", || {
+            check_text(&m, Some(&model), t, st)?;
+            check_text(&cache, Some(&model), t, st)
+        })
+        .map_err(|mut f| {
+            f.msg = crate::engine::truncate(&f.msg, 1500);
+            f.detail = json!({"lines": t.lines.len()});
+            f
+        })?;
+    }
+    Ok(())
+}
+
 pub fn run(ctx: &Ctx) -> Report {
     let mut rep = Report::new(ID, "exploration", ctx);
     rep.rule = "Cases: generated mappings x 24 texts each, built over the mapping's own names (throwables, 'Caused by:' lines, frames with space/tab/mixed/no indentation, '... n more', Native Method / Unknown Source frames, frames without parentheses, blank lines, arbitrary Unicode, LF/CRLF/mixed, with/without final newline). Oracles: (1) per-line decision list of the statement composed from the public single-line API (Throwable::try_parse, StackFrame::try_parse, remap_throwable, remap_frame, Display formats) — output must equal the concatenation, result must be Ok; (2) for texts whose lines are all AST-kinded, expected output computed from the reference retrace model without any crate parsing; (3) conservation: output line count = sum max(1, #remapped frames); (4) mapper output == cache output; (5) with an unrelated and with an empty mapping the output equals the input lines joined with LF. evaluations = remap_stacktrace calls checked. Non-trivial = distinct texts in which >=1 line is rewritten and >=1 line is passed through.".into();
     rep.assumptions = vec!["single-line parsers are covered by C17 / C01; C07 is about the composition".into()];
     rep.run_stage("ast", || map_case(&cfg()), ctx.cases(15_000, 600_000), check_case);
+    rep.run_stage("long", || map_case(&cfg()), ctx.cases(150, 3_000), check_long);
     rep
 }
 
 pub fn replay(stage: &str, case: &Value) -> Check {
     let mut st = Stats::new();
     match stage {
+        "long" => check_long(&serde_json::from_value(case.clone()).map_err(|e| Fail::new("harness-replay", e.to_string()))?, &mut st),
         "ast" => check_case(&serde_json::from_value(case.clone()).map_err(|e| Fail::new("harness-replay", e.to_string()))?, &mut st),
         _ => Err(Fail::new("harness-replay", format!("unknown stage {stage}"))),
     }
